@@ -1,5 +1,6 @@
 import Prism.Proofs.C17
 import Prism.Proofs.C17Profile
+import Prism.Proofs.C17Text
 
 #print axioms Prism.Icc.C17_desc_by_signature
 #print axioms Prism.Icc.C17_tag_slice
@@ -11,3 +12,6 @@ import Prism.Proofs.C17Profile
 #print axioms Prism.Icc.C17_read_tag_table
 #print axioms Prism.Icc.C17_read_profile
 #print axioms Prism.Icc.C17_profile_description
+#print axioms Prism.Icc.C17_utf16_roundtrip
+#print axioms Prism.Icc.C17_units_of_be
+#print axioms Prism.Icc.C17_text_roundtrip
